@@ -56,6 +56,25 @@ def execLevel (wh : List (Val N) → Row N → R Bool)
   let kept ← levelLoop wh post src src
   post src kept
 
+/-! ### SELECT -/
+
+/-- `ExecSelect`: when the select list is all aggregates (and there is no GROUP BY) a single row
+    computed once (`whole`); otherwise one output row per input row: objects are projected by `one`,
+    inner arrays (already projected by their own `exec`) pass through, anything else is an error. -/
+def selectRowsWith (one : Row N → R (Row N)) (whole : Option (R (Row N))) (rs : List (Val N)) :
+    R (List (Val N)) :=
+  match whole with
+  | some r => do
+    let row ← r
+    pure [.obj row]
+  | none => mapE (fun r =>
+      match r with
+      | .arr xs => (.ok (.arr xs) : R (Val N))
+      | .obj fs => do
+        let row ← one fs
+        pure (.obj row)
+      | _ => .error .error) rs
+
 /-! ### GROUP BY -/
 
 /-- Find the first group whose key matches (`eq` may fail: Go `==` on uncomparable values). -/
